@@ -1,7 +1,8 @@
 import CanvasModel.Region
 /-!
 C06 L2 model of `windings(zs)` (path.go): the accumulation over the sorted ray intersections with
-its one-element look-ahead. The out-of-range read `zs[i+1]` is an explicit `panic` outcome.
+its one-element look-ahead. Since 0cf6beb an end-point hit that is the last element of the list (end
+point of an open subpath) stops the loop instead of reading `zs[i+1]`: the function is total.
 -/
 namespace Canvas.C06
 
@@ -15,7 +16,6 @@ deriving Repr, DecidableEq
 
 inductive Outcome where
   | ok (n : Int) (boundary : Bool)
-  | panic
 deriving Repr, DecidableEq
 
 def dir (z : Z) : Int := if z.into then -1 else 1
@@ -29,7 +29,7 @@ def go : List Z → Int → Bool → Bool × Bool → Outcome
     else if !z.endpoint then go rest (if z.same then n else n + dir z) b st
     else
       match rest with
-      | [] => if z.same then .ok n b else .panic   -- `z.Same || zs[i+1].Same` short-circuits; else zs[i+1] is out of range
+      | [] => .ok n b   -- `if i+1 == len(zs) { break }`: no adjoining segment to pair with
       | z2 :: rest' =>
         if !(z.same || z2.same) then
           go rest' (if z.into == z2.into then n + dir z else n) b st
@@ -55,7 +55,6 @@ def handle : List String → Option String
     let zs ← parseZs rest
     match windings zs with
     | .ok n b => pure s!"{n} {if b then 1 else 0}"
-    | .panic => pure "panic"
   | "REGION" :: rest => Canvas.Region.handle rest
   | _ => none
 
